@@ -339,6 +339,22 @@ Tighten(T, s, e) ==
         <<"C03:tighten-excludes",     \A v \in (e.box[d][1])..(e.box[d][2]) : Better(T, v + OffOf(P, e.var), incObj)>> >>)
   IN << [s EXCEPT !.frames = << [box |-> e.box, en |-> AllOn(P), base |-> e.box] >>, !.wake = <<0, 0>>], bad >>
 
+\* the search for a better solution begins (read from the state at its first pass): the root level, every constraint
+\* enabled again, the initial domains except the objective's, which excludes the incumbent and keeps everything better
+Restart(T, s, e) ==
+  LET P == T.P
+      d == DomOf(P, e.var)
+      incObj == e.val
+      bad == Failed(<<
+        <<"C03:reset-exact",          e.en = AllOn(P) /\ e.top = 0>>,
+        <<"C03:tighten-var",          e.var = T.var /\ s.hasInc /\ e.val = Objective(P, T, s.inc)>>,
+        <<"C03:tighten-others",       \A j \in 1..NDom(P) : j # d => e.box[j] = P.doms[j]>>,
+        <<"C03:tighten-inside",       e.box[d][1] >= P.doms[d][1] /\ e.box[d][2] <= P.doms[d][2]>>,
+        <<"C03:tighten-keeps-better", \A x \in s.sols : Better(T, Objective(P, T, x), incObj) => InBox(x, e.box)>>,
+        <<"C03:tighten-excludes",     \A v \in (e.box[d][1])..(e.box[d][2]) : Better(T, v + OffOf(P, e.var), incObj)>> >>)
+  IN << [s EXCEPT !.frames = << [box |-> e.box, en |-> e.en, base |-> e.box] >>, !.dead = FALSE, !.shOn = FALSE,
+                  !.wake = <<0, 0>>], bad >>
+
 SearchEnd(T, s, e) ==     \* solve_one returned None inside optimize
   << [s EXCEPT !.cnt = s.cnt], Failed(<< <<"C17:stats-exact", e.stats = s.cnt>> >>) >>
 
@@ -391,6 +407,7 @@ Step0(T, s, e) ==
     [] e.k = "D" -> Done(T, s, e)
     [] e.k = "Z" -> ResetEv(T, s, e)
     [] e.k = "T" -> Tighten(T, s, e)
+    [] e.k = "N" -> Restart(T, s, e)
     [] e.k = "O" -> OptReturn(T, s, e)
     [] e.k = "X" -> Raised(T, s, e)
     [] e.k = "H" -> << s, {"C04:hung"} >>
